@@ -11,7 +11,24 @@
    "Z" or sign hh ":" mm.  year_ok ned y: 0 <= y <= 9999 (ned = 0),
    |y| < 10^(4+ned) otherwise.  tod_fits6 t: the fractional field of t times
    10^6 is a whole number.  same_point q p: dates =, zones =, time fields ==
-   constructor by constructor (tod_eq). *)
+   constructor by constructor (tod_eq).
+
+   Custom formats (sections 7-9).  do_dump md ned p fmt is p.dump(fmt) under a
+   dumper with ned expanded year digits.  cdate_expr ext xp k is a complete date
+   expression of the generated tables: the year "CCYY" (xp = false) or "+XCCYY"
+   (xp = true, only with ned <> 0), then for k = 0/1/2 the calendar, ordinal or
+   week date, basic "MMDD" "DDD" "WwwD" (ext = false) or extended "-MM-DD" "-DDD"
+   "-Www-D" (ext = true).  ctime_expr ext is "hhmmss" / "hh:mm:ss"; czone_expr ext
+   is "+hhmm" / "+hh:mm".  hms_whole t: t is an hour:minute:second time of day
+   whose second is a whole number.  cust_date md k d is the date the dumper prints
+   from: the week date of d for k = 2, the calendar date of a week date d for
+   k = 0 or 1, d itself otherwise.  cust_point md k p z is p with that date,
+   moved to the zone z by TimePoint.to_time_zone: the point whose fields are
+   printed.  year_ok (if xp then ned else 0) y is the dumper's bounds test on the
+   printed year y.  zlit ext zk neg a b is the literal zone text: sign, two digits
+   of a, and (zk = true) the two digits of b, after ":" when ext = true;
+   zlit_zone zk neg a b is the zone it denotes.  tp_cmp md q p = Some Eq is
+   q == p of the package (the same instant). *)
 From Coq Require Import ZArith QArith Qround List Bool String Ascii.
 From Iso Require Import Spec.Cal Spec.Instant Model.Num Model.Helpers Model.Duration Model.TimePoint
   Model.Forms Model.Parse Model.Dump Spec.FormText Proofs.MatchSpec gen.Grammar Model.DriverText
@@ -113,6 +130,102 @@ Theorem C08_roundtrip_24 : forall md ned d z, In ned [0; 2; 3]%Z ->
 Proof. exact roundtrip_24. Qed.
 Print Assumptions C08_roundtrip_24.
 
+(* 7. CUSTOM FORMATS ENDING IN "Z".  For ned in {0,2,3}, every complete date
+      expression of the tables (plain year, or expanded year when ned <> 0;
+      calendar, ordinal or week date), "T", the time expression to the second in
+      the same notation (basic with basic, extended with extended) and "Z": a
+      valid point in hh:mm:ss form with whole seconds whose printed year fits is
+      dumped to a text that the default parser reads back as a point in UTC that
+      compares == with the original.  The printed point r = cust_point md k p UTC
+      always exists, is valid and is the same instant (C08_custom_point); when
+      its year does not fit, the dumper raises its bounds error.
+      NOT covered by sections 7-9 (hence _partial): fractional seconds (the
+      formats to the second drop them: see C08_custom_ex), times of day in
+      hh:mm or hh form, reduced or truncated time and date expressions, the
+      decimal expressions (",tt" ...), formats without a zone designator, the
+      hour-only placeholder "+hh" (drops the zone's minutes), strftime-style
+      "%" formats (property C17), and formats mixing a basic date with an
+      extended time or zone or conversely: those are printed but the parser
+      genuinely refuses their text (last two lines of C08_ex). *)
+Theorem C08_custom_partial : forall md ned ext xp k p r,
+  In ned [0; 2; 3]%Z -> In k [0; 1; 2]%Z -> (xp = true -> ned <> 0%Z) ->
+  valid_tp md p = true -> hms_whole (ttod p) = true ->
+  cust_point md k p (mkZone 0 0) = Some r -> year_ok (if xp then ned else 0%Z) (date_year (tdate r)) ->
+  exists s p' q,
+    do_dump md ned p (cdate_expr ext xp k ++ "T" ++ ctime_expr ext ++ "Z") = DOk s /\
+    parse_text md (default_cfg (pcfg_ned ned)) s false = POk p' /\
+    ptp_to_tp p' = Some q /\ tzone q = mkZone 0 0 /\ tp_cmp md q p = Some Eq.
+Proof. exact custom_utc. Qed.
+Print Assumptions C08_custom_partial.
+
+(* the same from the dumper's side: whenever the dump succeeds, its text is
+   read back as an equal point (no hypothesis on the year) *)
+Theorem C08_custom_dumped_partial : forall md ned ext xp k p s,
+  In ned [0; 2; 3]%Z -> In k [0; 1; 2]%Z -> (xp = true -> ned <> 0%Z) ->
+  valid_tp md p = true -> hms_whole (ttod p) = true ->
+  do_dump md ned p (cdate_expr ext xp k ++ "T" ++ ctime_expr ext ++ "Z") = DOk s ->
+  exists p' q,
+    parse_text md (default_cfg (pcfg_ned ned)) s false = POk p' /\
+    ptp_to_tp p' = Some q /\ tzone q = mkZone 0 0 /\ tp_cmp md q p = Some Eq.
+Proof. exact custom_utc_dumped. Qed.
+Print Assumptions C08_custom_dumped_partial.
+
+(* the printed point exists for every valid p (any hh:mm:ss, hh:mm or hh form),
+   and a year outside the digits of the format is refused with the bounds error *)
+Theorem C08_custom_point : forall md ned ext xp k p,
+  In ned [0; 2; 3]%Z -> In k [0; 1; 2]%Z -> (xp = true -> ned <> 0%Z) -> valid_tp md p = true ->
+  exists r, cust_point md k p (mkZone 0 0) = Some r /\ valid_tp md r = true /\ (instant md r == instant md p)%Q /\
+            tzone r = mkZone 0 0 /\
+            (~ year_ok (if xp then ned else 0%Z) (date_year (tdate r)) ->
+             do_dump md ned p (cdate_expr ext xp k ++ "T" ++ ctime_expr ext ++ "Z") = DBounds).
+Proof. exact custom_utc_point. Qed.
+Print Assumptions C08_custom_point.
+Theorem C08_custom_point_any_zone : forall md k p z, valid_tp md p = true -> valid_zone z = true ->
+  exists r, cust_point md k p z = Some r /\ valid_tp md r = true /\ (instant md r == instant md p)%Q /\
+            tzone r = z /\ tod_kind (ttod r) = tod_kind (ttod p) /\
+            (if (k =? 2)%Z then rep_kind (tdate r) = 2%Z else rep_kind (tdate r) <> 2%Z).
+Proof. exact cust_point_spec. Qed.
+Print Assumptions C08_custom_point_any_zone.
+
+(* 8. CUSTOM FORMATS WITH A LITERAL NUMERIC ZONE in the notation of the date:
+      "+0530" "-0530" "+05" with a basic date, "+05:30" "-05:30" "+05" with an
+      extended one, hours 00..99, minutes 00..59.  The dumper moves the point
+      to that zone and prints the literal; the parser reads the zone back. *)
+Theorem C08_literal_zone_text : forall ext zk neg a b,
+  zlit ext zk neg a b = (if neg then "-" else "+") ++ pad_num 2 a ++
+                        (if zk then (if ext then ":" else "") ++ pad_num 2 b else "").
+Proof. exact zlit_text. Qed.
+Print Assumptions C08_literal_zone_text.
+Theorem C08_custom_literal_zone_partial : forall md ned ext xp k zk neg a b p r,
+  In ned [0; 2; 3]%Z -> In k [0; 1; 2]%Z -> (xp = true -> ned <> 0%Z) -> (0 <= a <= 99)%Z -> (0 <= b <= 59)%Z ->
+  valid_tp md p = true -> hms_whole (ttod p) = true ->
+  cust_point md k p (zlit_zone zk neg a b) = Some r -> year_ok (if xp then ned else 0%Z) (date_year (tdate r)) ->
+  exists s p' q,
+    do_dump md ned p (cdate_expr ext xp k ++ "T" ++ ctime_expr ext ++ zlit ext zk neg a b) = DOk s /\
+    parse_text md (default_cfg (pcfg_ned ned)) s false = POk p' /\
+    ptp_to_tp p' = Some q /\ tzone q = zlit_zone zk neg a b /\ tp_cmp md q p = Some Eq.
+Proof. exact custom_literal_zone. Qed.
+Print Assumptions C08_custom_literal_zone_partial.
+
+(* 9. CUSTOM FORMATS PRINTING THE POINT'S OWN ZONE with the placeholder "+hhmm"
+      (basic) or "+hh:mm" (extended): no change of zone, the date is converted
+      to the representation of the format, the parsed point has the zone of p *)
+Theorem C08_custom_own_zone_partial : forall md ned ext xp k p d,
+  In ned [0; 2; 3]%Z -> In k [0; 1; 2]%Z -> (xp = true -> ned <> 0%Z) ->
+  valid_tp md p = true -> hms_whole (ttod p) = true ->
+  cust_date md k (tdate p) = Some d -> year_ok (if xp then ned else 0%Z) (date_year d) ->
+  exists s p' q,
+    do_dump md ned p (cdate_expr ext xp k ++ "T" ++ ctime_expr ext ++ czone_expr ext) = DOk s /\
+    parse_text md (default_cfg (pcfg_ned ned)) s false = POk p' /\
+    ptp_to_tp p' = Some q /\ tzone q = tzone p /\ tp_cmp md q p = Some Eq.
+Proof. exact custom_own_zone. Qed.
+Print Assumptions C08_custom_own_zone_partial.
+Theorem C08_custom_date : forall md k d, valid_date md d = true ->
+  exists d', cust_date md k d = Some d' /\ valid_date md d' = true /\ date_dn md d' = date_dn md d /\
+             (if (k =? 2)%Z then rep_kind d' = 2%Z else rep_kind d' <> 2%Z).
+Proof. exact cust_date_spec. Qed.
+Print Assumptions C08_custom_date.
+
 (* the hypotheses are satisfiable; what the model computes on a week date with
    a decimal minute and a negative offset, an expanded negative year, and the
    inputs outside the property's hypotheses: a year beyond the agreed digits is
@@ -134,4 +247,36 @@ Example C08_ex :
   do_str G 0 (mkTp (Cal (-1) 1 1) (HMS 0 0 0) (mkZone 0 0)) = DOverflow /\
   do_dump G 0 (mkTp (Cal 2000 1 2) (HMS 3 4 5) (mkZone 0 0)) "CCYYMMDDThh:mm:ssZ" = DOk "20000102T03:04:05Z" /\
   parse_text G (default_cfg 2) "20000102T03:04:05Z" false = PErr ESyntax.
+Proof. vm_compute. repeat split; try reflexivity; discriminate. Qed.
+
+(* custom formats: the hypotheses of sections 7-9 are satisfiable (the printed
+   point, the text, how the parsed point compares with the original), and what
+   lies outside them: a fractional second is dropped (the parsed point is
+   earlier), "+hh" drops the zone's minutes, a format without zone designator
+   is read back in UTC, a year beyond the format's digits is refused *)
+Example C08_custom_ex :
+  let p := mkTp (Cal 2000 1 2) (HMS 3 4 5) (mkZone 1 0) in
+  let back := fun (ned : Z) (p : tp) (d : dres) =>
+    match d with
+    | DOk s => match parse_text G (default_cfg (pcfg_ned ned)) s false with
+               | POk x => option_map (fun q => tp_cmp G q p) (ptp_to_tp x) | PErr _ => None end
+    | _ => None end in
+  valid_tp G p = true /\ hms_whole (ttod p) = true /\
+  cust_point G 2 p (mkZone 0 0) = Some (mkTp (Wk 1999 52 7) (HMS 2 4 5) (mkZone 0 0)) /\ year_ok 3 1999 /\
+  cdate_expr false true 2 ++ "T" ++ ctime_expr false ++ "Z" = "+XCCYYWwwDThhmmssZ" /\
+  do_dump G 3 p "+XCCYYWwwDThhmmssZ" = DOk "+0001999W527T020405Z" /\
+  back 3%Z p (DOk "+0001999W527T020405Z") = Some (Some Eq) /\
+  zlit true true true 5 30 = "-05:30" /\ zlit_zone true true 5 30 = mkZone (-5) (-30) /\
+  cust_point G 1 p (mkZone (-5) (-30)) = Some (mkTp (Cal 2000 1 1) (HMS 20 34 5) (mkZone (-5) (-30))) /\ year_ok 0 2000 /\
+  do_dump G 0 p (cdate_expr true false 1 ++ "T" ++ ctime_expr true ++ "-05:30") = DOk "2000-001T20:34:05-05:30" /\
+  back 0%Z p (DOk "2000-001T20:34:05-05:30") = Some (Some Eq) /\
+  cust_date G 0 (Cal 2000 1 2) = Some (Cal 2000 1 2) /\
+  do_dump G 0 p (cdate_expr false false 0 ++ "T" ++ ctime_expr false ++ czone_expr false) = DOk "20000102T030405+0100" /\
+  back 0%Z p (DOk "20000102T030405+0100") = Some (Some Eq) /\
+  (let p1 := mkTp (Cal 2000 1 2) (HMS 3 4 (11 # 2)) (mkZone 0 0) in
+   do_dump G 0 p1 "CCYYMMDDThhmmssZ" = DOk "20000102T030405Z" /\ back 0%Z p1 (DOk "20000102T030405Z") = Some (Some Lt)) /\
+  (let p2 := mkTp (Cal 2000 1 2) (HMS 3 4 5) (mkZone 5 30) in
+   do_dump G 0 p2 "CCYYMMDDThhmmss+hh" = DOk "20000102T030405+05" /\ back 0%Z p2 (DOk "20000102T030405+05") = Some (Some Gt)) /\
+  do_dump G 0 p "CCYYMMDDThhmmss" = DOk "20000102T030405" /\ back 0%Z p (DOk "20000102T030405") = Some (Some Gt) /\
+  do_dump G 0 (mkTp (Cal 10000 1 2) (HMS 3 4 5) (mkZone 0 0)) "CCYYMMDDThhmmssZ" = DBounds.
 Proof. vm_compute. repeat split; try reflexivity; discriminate. Qed.
